@@ -381,13 +381,17 @@ impl OutgoingDataFlowController for StreamFlowController {
                 .request_delivery(self.max_stream_data);
         }
 
+        // Connection credit is only reserved up to the stream's own limit: data beyond
+        // `max_stream_data` cannot be sent yet, and everything reserved here is reported to
+        // the peer as the final size if the stream gets reset.
+        let requested_window = core::cmp::min(end_offset, self.max_stream_data);
         self.highest_requested_connection_flow_control_window = core::cmp::max(
-            end_offset,
+            requested_window,
             self.highest_requested_connection_flow_control_window,
         );
         self.try_acquire_connection_window();
 
-        if end_offset > self.acquired_connection_flow_controller_window {
+        if requested_window > self.acquired_connection_flow_controller_window {
             // Can't send due to being blocked on the connection flow control window
             self.state = StreamFlowControllerState::BlockedOnConnectionWindow;
         }
